@@ -375,6 +375,67 @@ def p3(ctx):
                         ctx.violate(key, None, 'copy_nonoverlapping count is not the constant 1', at=t.get('at'), sig='rawop-count')
 
 
+def has_call(v, name, depth=0):
+    if not isinstance(v, tuple) or depth > 30:
+        return False
+    if v and v[0] == 'call' and v[2] == name:
+        return True
+    return any(has_call(x, name, depth + 1) for x in v if isinstance(x, tuple))
+
+
+@rule('P5', ['C04', 'C01', 'C07'], 'direction of the raw copies: store_as_kanal_ptr copies FROM its argument INTO the local cell; KanalPtr::copy copies FROM its argument INTO the stored address; returned cell is the one written')
+def p5(ctx):
+    b = ctx.body('pointer::store_as_kanal_ptr')
+    if b is None:
+        ctx.violate('pointer::store_as_kanal_ptr', None, 'anchor missing', sig='anchor')
+    else:
+        ctx.instance(b.key)
+        for p, evs in ret_paths(ctx, b):
+            cps = [e for e in p.events if e.kind == 'call' and e.name in PTR_COPY]
+            for c in cps:
+                ctx.oblige(1, sample='store_as_kanal_ptr: copy(%s -> %s)' % (fmt(c.args[-3]), fmt(c.args[-2])))
+                src, dst = c.args[-3], c.args[-2]
+                if src != ('param', 1):
+                    ctx.violate(b.key, p, 'store_as_kanal_ptr does not copy from its argument: %s' % fmt(src), at=c.at)
+                ok_dst = has_call(dst, 'std::mem::MaybeUninit::as_mut_ptr') and not contains(dst, ('param', 1))
+                if not ok_dst:
+                    ctx.violate(b.key, p, 'store_as_kanal_ptr does not copy into its own local cell: %s' % fmt(dst), at=c.at)
+            r = p.ret
+            if not (r is not None and r[0] == 'call' and r[2] == 'std::mem::MaybeUninit::uninit'):
+                ctx.violate(b.key, p, 'store_as_kanal_ptr does not return the cell it filled: %s' % fmt(r))
+    b = ctx.body(PK + 'copy')
+    if b is not None:
+        ctx.instance(b.key)
+        for p, evs in ret_paths(ctx, b):
+            for c in [e for e in p.events if e.kind == 'call' and e.name in PTR_COPY]:
+                ctx.oblige(1)
+                src, dst = c.args[-3], c.args[-2]
+                if src != ('param', 2) or not has_call(dst, 'std::mem::MaybeUninit::assume_init'):
+                    ctx.violate(b.key, p, 'KanalPtr::copy does not copy from its argument into the stored address', at=c.at)
+    b = ctx.body(PK + 'write')
+    if b is not None:
+        ctx.instance(b.key)
+        for p, evs in ret_paths(ctx, b):
+            for c in [e for e in p.events if e.kind == 'call' and e.name == 'pointer::store_as_kanal_ptr']:
+                ctx.oblige(1)
+                a = c.args[0]
+                if not (a[0] in ('ref', 'rawptr') and a[1] == ('local', 2)):
+                    ctx.violate(b.key, p, 'KanalPtr::write encodes something other than its argument', at=c.at)
+            for w in [e for e in p.events if e.kind == 'wr' and e.place[0] == 'deref' and cell_get(e.place[1])]:
+                if not (w.val[0] == 'call' and w.val[2] == 'pointer::store_as_kanal_ptr'):
+                    ctx.violate(b.key, p, 'KanalPtr::write stores something other than the encoded argument into the cell', at=w.at)
+    b = ctx.body(PK + 'read')
+    if b is not None:
+        ctx.instance(b.key)
+        for p, evs in ret_paths(ctx, b):
+            ctx.oblige(1)
+            r = p.ret
+            if r is None or r[0] != 'call' or r[2] not in PTR_READ + ('std::mem::zeroed',):
+                ctx.violate(b.key, p, 'KanalPtr::read does not return what it read: %s' % fmt(r))
+            elif r[2] in PTR_READ and not contains(r[3], ('param', 1)):
+                ctx.violate(b.key, p, 'KanalPtr::read reads from something other than this cell')
+
+
 @rule('P4', ['C05', 'C04'], 'ownership of the bit copy: the source is forgotten after its bits were copied; read never forgets')
 def p4(ctx):
     b = ctx.body(PK + 'write')
